@@ -866,34 +866,26 @@ class RemoteStreamFlowPath(
                 try:
                     content, status = await self.connector.run(
                         location=self.location,
-                        command=command + ["-type", "d"],
+                        command=command + ["-type", "d", "-print0"],
                         capture_output=True,
                     )
                     _check_status(command, self.location, content, status)
-                    content = content.strip(" \n")
-                    dirnames = (
-                        [
-                            str(self.with_segments(p).relative_to(path))
-                            for p in content.splitlines()
-                        ]
-                        if content
-                        else []
-                    )
+                    dirnames = [
+                        str(self.with_segments(p).relative_to(path))
+                        for p in content.split("\0")
+                        if p
+                    ]
                     content, status = await self.connector.run(
                         location=self.location,
-                        command=command + ["-type", "f"],
+                        command=command + ["-type", "f", "-print0"],
                         capture_output=True,
                     )
                     _check_status(command, self.location, content, status)
-                    content = content.strip(" \n")
-                    filenames = (
-                        [
-                            str(self.with_segments(p).relative_to(path))
-                            for p in content.splitlines()
-                        ]
-                        if content
-                        else []
-                    )
+                    filenames = [
+                        str(self.with_segments(p).relative_to(path))
+                        for p in content.split("\0")
+                        if p
+                    ]
                 except WorkflowExecutionException as error:
                     if on_error is not None:
                         on_error(error)
